@@ -70,7 +70,8 @@ def main():
             dst = os.path.join(HERE, "seeded", args.keep)
             os.makedirs(dst, exist_ok=True)
             for name in ("patch.diff", "demo.py"):
-                shutil.copy(os.path.join(src, name), os.path.join(dst, name))
+                if os.path.abspath(src) != os.path.abspath(dst):
+                    shutil.copy(os.path.join(src, name), os.path.join(dst, name))
             meta["confirmed"] = {
                 "what_i_ran": "tools/seeded.py eval: demo.py on a scratch worktree of /repo HEAD (exit 0 expected), git apply patch.diff, full test suite (must pass), demo.py again (non-zero expected), then the listed checks with VERIF_REPO pointing at the patched worktree",
                 **result,
